@@ -258,6 +258,19 @@ def forms():
         "rmatmul": lambda m, x: c.T @ x,
         "eq": lambda m, x: x == c,
         "lt": lambda m, x: (x < c, x >= 0.0, x != c),
+        "cmp all": lambda m, x: (x <= c, x > c, c >= x, c < x, x >= c, 0.25 <= x, x <= x),
+        "bool branch": lambda m, x: (x * 2.0 if x[0, 0] else x * 3.0) + (1.0 if x[1, 2] > 0.1 else -1.0) + (0.0 if not x[0, 1] else 0.5),
+        "bool all": lambda m, x: x if (x == x).all() and bool(m.any(x > -9.0)) else -x,
+        "props": lambda m, x: x * float(x.ndim + x.size + len(x.shape) + x.T.shape[0]) + (1.0 if x.dtype == onp.float64 else 0.0),
+        "min method": lambda m, x: _tup(x.min(axis=1), x.max(), x.ptp(axis=0) if hasattr(onp.ndarray, "ptp") else x.min(), x.cumprod(axis=1), x.compress([True, False, True], axis=1)),
+        "int methods": lambda m, x: x * float(x.argmax() + 2 * x.argmin(axis=0)[1] + 4 * x.all() + 8 * x.any(axis=1)[0] + 16 * x.argsort(axis=1)[1, 0] + 32 * x[0].searchsorted(0.2)
+                                              + 64 * x[0].argpartition(1)[1] + 128 * x.nonzero()[0].size),
+        "ravel method": lambda m, x: _tup(x.ravel(), x.transpose(), x.transpose((1, 0)), x.real, x.imag),
+        "conj method": lambda m, x: x.conj(),
+        "transpose star": lambda m, x: x.transpose(1, 0),
+        "dot method": lambda m, x: x.dot(c.T),
+        "round method": lambda m, x: _tup(x.round() * x, m.sort(x[1]), x.copy() if hasattr(x, "copy") else x),
+        "getitem forms": lambda m, x: _tup(x[0], x[:, 1], x[..., -1], x[None, 1, ::2], x[[0, 1], [2, 0]], x[x > 0.1], x[m.array([1, 0])]),
         "slogdet": lambda m, x: m.linalg.slogdet(x @ x.T + m.eye(2)),
         "eigh": lambda m, x: m.linalg.eigh(x @ x.T),
         "svd": lambda m, x: m.linalg.svd(x, full_matrices=False),
@@ -298,6 +311,22 @@ def forms():
         "dict values": lambda m, x: _ab().list(_ab().dict({"a": x[0], "b": x[1] * 2}).values()),
         "dict get": lambda m, x: _ab().dict({"a": x[0], "b": x[1] * 2}).get("b"),
         "nested containers": lambda m, x: _ab().tuple((_ab().list([x[0], 1.0]), _ab().dict({"k": x[1]}))),
+        "seq contains": lambda m, x: x * (1.0 * (3.0 in _ab().tuple((x[0, 0], 3.0))) + 2.0 * (4.0 in _ab().list([x[0, 0], 3.0])) + 4.0 * len(_ab().tuple((x[0], 2.0, x[1])))),
+        "seq index": lambda m, x: float(_ab().list([x[0, 0], 3.0, 7.0]).index(7.0)) * x,
+        "seq iter": lambda m, x: _ab().list([2.0 * e for e in _ab().tuple((x[0], x[1, 1], 1.5))]),
+        "dict queries": lambda m, x: x * float(len(_ab().dict({"a": x[0], "b": 1.0})) + 4 * ("a" in _ab().dict({"a": x[0]})) + 8 * ("z" in _ab().dict({"a": x[0]}))
+                                               + 16 * (sorted(_ab().dict({"b": x[0], "a": x[1]}).keys()) == ["a", "b"])
+                                               + 32 * ([k for k in _ab().dict({"b": x[0], "a": x[1]})] == ["b", "a"])),
+        "dict items": lambda m, x: _ab().list([_tup(k, v * 2.0) for k, v in sorted(_ab().dict({"b": x[0], "a": x[1, 1]}).items())]),
+        "dict empty": lambda m, x: _tup(_ab().dict({}), _ab().dict(), x[0]),
+        "dict kwargs": lambda m, x: _ab().dict(a=x[0], b=2.0),
+        "dict pairs": lambda m, x: _ab().dict([("a", x[0]), ("b", x[1, 0])]),
+        "tuple empty": lambda m, x: _tup(_ab().tuple(()), _ab().list([]), x[1]),
+        "tuple of gen": lambda m, x: _ab().tuple(r * 2.0 for r in x),
+        "list of box": lambda m, x: _ab().list(x),
+        # exception-driven control flow inside the evaluated function: an inner differentiation fails and is caught
+        "caught inner failure r": lambda m, x: _caught(m, x, "r"),
+        "caught inner failure f": lambda m, x: _caught(m, x, "f"),
     }
     return {k: v for k, v in F.items() if v is not None}
 
@@ -306,6 +335,32 @@ def _ab():
     import autograd.builtins as ab
 
     return ab
+
+
+class _Stop(Exception):
+    pass
+
+
+def _caught(m, x, mode):
+    import autograd
+    import autograd.numpy as anp
+
+    def bad(y):
+        z = anp.sin(y) * x[0, 0]
+        if z == z:
+            raise _Stop()
+        return z
+
+    try:
+        autograd.grad(bad)(0.5) if mode == "r" else autograd.make_jvp(bad)(0.5)(1.0)
+    except _Stop:
+        pass
+    return m.tanh(x) * 2.0 + x[1, 1]
+
+
+def _tup(*a):
+    """Results holding several values are returned in autograd's own tuple (plain containers are documented as opaque)."""
+    return _ab().tuple(a)
 
 
 _FORMS = {}
@@ -348,12 +403,15 @@ def isinstance_body(c):
     val = {"pyfloat": 0.75, "npfloat64": onp.float64(0.75), "array0d": onp.array(0.75), "array": a, "complex": 0.5 + 1j,
            "carray": a + 1j, "tuple": (a, 0.5), "list": [a, 0.5], "dict": {"k": a, "j": 0.5}, "nested": ([a, (0.5,)], {"z": a})}[kind]
     queries = [float, complex, int, onp.ndarray, tuple, list, dict, onp.float64, (float, onp.ndarray), str]
+    # autograd's own container classes stand for the builtin ones in type queries (metaclass __instancecheck__), with either isinstance
+    own = [(ab.tuple, tuple), (ab.list, list), (ab.dict, dict), ((ab.tuple, ab.list), (tuple, list))]
     sample = {"kind": kind, "stack": stack}
-    want = ([isinstance(val, q) for q in queries], type(val))
+    want = ([isinstance(val, q) for q in queries] + [isinstance(val, q) for _, q in own] * 2, type(val))
     seen = {}
 
     def probe(x):
-        seen["isinstance"] = [ab.isinstance(x, q) for q in queries]
+        seen["isinstance"] = ([ab.isinstance(x, q) for q in queries] + [ab.isinstance(x, q) for q, _ in own]
+                              + [isinstance(autograd.tracer.getval(x), q) for q, _ in own])
         seen["type"] = ab.type(x)
         return x
 
